@@ -170,7 +170,8 @@ func (e *Extractor) extractPrefixes(re *syntax.Regexp, depth int) *Seq {
 		// Direct literal: "hello" → ["hello"]
 		bytes := runeSliceToBytes(re.Rune)
 		if len(bytes) > e.config.MaxLiteralLen {
-			bytes = bytes[:e.config.MaxLiteralLen]
+			// A truncated literal is only a prefix of the match, not a whole match
+			return NewSeq(NewLiteral(bytes[:e.config.MaxLiteralLen], false))
 		}
 		return NewSeq(NewLiteral(bytes, true))
 
@@ -599,13 +600,19 @@ func (e *Extractor) extractSuffixes(re *syntax.Regexp, depth int) *Seq {
 	case syntax.OpLiteral:
 		// Case-insensitive literal: expand case-folding variants
 		if re.Flags&syntax.FoldCase != 0 {
-			return e.expandCaseFoldLiteral(re.Rune)
+			seq := e.expandCaseFoldLiteral(re.Rune)
+			if !seq.AllComplete() {
+				// Trimmed/truncated variants keep the FIRST bytes of the literal,
+				// which says nothing about how a match ends.
+				return NewSeq()
+			}
+			return seq
 		}
 		// Direct literal
 		bytes := runeSliceToBytes(re.Rune)
 		if len(bytes) > e.config.MaxLiteralLen {
-			// For suffix, take the LAST MaxLiteralLen bytes
-			bytes = bytes[len(bytes)-e.config.MaxLiteralLen:]
+			// For suffix, take the LAST MaxLiteralLen bytes (no longer a whole match)
+			return NewSeq(NewLiteral(bytes[len(bytes)-e.config.MaxLiteralLen:], false))
 		}
 		return NewSeq(NewLiteral(bytes, true))
 
@@ -680,11 +687,13 @@ func (e *Extractor) extractSuffixes(re *syntax.Regexp, depth int) *Seq {
 				copy(newBytes, prefix)
 				copy(newBytes[len(prefix):], lit.Bytes)
 				// Truncate if too long
+				complete := lit.Complete
 				if len(newBytes) > e.config.MaxLiteralLen {
 					// For suffix, keep the last MaxLiteralLen bytes
 					newBytes = newBytes[len(newBytes)-e.config.MaxLiteralLen:]
+					complete = false
 				}
-				lits[j] = NewLiteral(newBytes, lit.Complete)
+				lits[j] = NewLiteral(newBytes, complete)
 			}
 			suffixes = NewSeq(lits...)
 
@@ -931,10 +940,12 @@ func (e *Extractor) generateCaseFoldVariants(foldSets [][]rune, prefixLen int) *
 	lits := make([]Literal, 0, len(variants))
 	for _, v := range variants {
 		b := runeSliceToBytes(v)
+		complete := true
 		if len(b) > e.config.MaxLiteralLen {
 			b = b[:e.config.MaxLiteralLen]
+			complete = false // truncated: no longer a whole match
 		}
-		lits = append(lits, NewLiteral(b, true))
+		lits = append(lits, NewLiteral(b, complete))
 	}
 	return NewSeq(lits...)
 }
@@ -1006,9 +1017,10 @@ func (e *Extractor) expandCharClass(re *syntax.Regexp) *Seq {
 		lo, hi := re.Rune[i], re.Rune[i+1]
 		for r := lo; r <= hi; r++ {
 			bytes := []byte(string(r))
-			// Truncate if exceeds MaxLiteralLen
+			// A rune that does not fit in MaxLiteralLen cannot be represented:
+			// part of its encoding is neither a whole match nor a suffix of one.
 			if len(bytes) > e.config.MaxLiteralLen {
-				bytes = bytes[:e.config.MaxLiteralLen]
+				return NewSeq()
 			}
 			lits = append(lits, NewLiteral(bytes, true))
 
